@@ -931,11 +931,6 @@ void subtotal_posts::operator()(post_t& post)
     assert(result.second);
 #endif
   } else {
-    if (post.has_flags(POST_VIRTUAL) != (*i).second.is_virtual)
-      throw_(std::logic_error,
-             _("'equity' cannot accept virtual and "
-               "non-virtual postings to the same account"));
-
     // One posting that need not balance makes the whole account one that
     // need not: it is reported as `(Account)', and its total must not be
     // offset by the balancing posting of the `equity' command.
@@ -1096,6 +1091,20 @@ namespace {
       (*handler)(balance_post);
     }
   };
+}
+
+void posts_as_equity::operator()(post_t& post)
+{
+  // The equity transaction writes each account once, as a real or as a
+  // virtual posting; the subtotalling reports have no such restriction.
+  values_map::iterator i = values.find(post.reported_account()->fullname());
+  if (i != values.end() &&
+      post.has_flags(POST_VIRTUAL) != (*i).second.is_virtual)
+    throw_(std::logic_error,
+           _("'equity' cannot accept virtual and "
+             "non-virtual postings to the same account"));
+
+  subtotal_posts::operator()(post);
 }
 
 void posts_as_equity::report_subtotal()
